@@ -23,6 +23,18 @@ def make_grammars(rng, n, p_err, conflict_bias=0.0):
         if rng.random() < conflict_bias:
             gs.append({"lex": lex, "syn": gram.conflict_rich_syn(rng, terms), "err": False})
             continue
+        if err and rng.random() < 0.25:
+            # the classic shape of error recovery: a list of statements, one alternative of which is `error <sync>`;
+            # the same state can then sit above different recovery states (start of input / after complete statements)
+            t1, t2, t3 = (terms + terms)[:3]
+            aid0 = rng.randint(1, 9) * 10
+            syn = [("S0", [(0, "N1")], 0, 0), ("S0", [(0, "S0"), (0, "N1")], rng.choice([0, 1]), aid0 + 1),
+                   ("N1", [t1, t2, t3], rng.choice([0, 1, 8]), aid0 + 2), ("N1", [(1, "error"), t3], rng.choice([0, 1, 2]), aid0 + 3)]
+            if rng.random() < 0.5:
+                syn.append(("N1", [t1, (0, "N1"), t3], 0, 0))
+            syn = [(h, b, a, (i if a else 0)) for h, b, a, i in syn]
+            gs.append({"lex": lex, "syn": syn, "err": True})
+            continue
         syn = gram.rand_syn(rng, terms, nnt=rng.choice([1, 2, 2, 3, 3, 4]), max_alts=rng.choice([2, 3]),
                             max_len=rng.choice([2, 3, 3, 4]), p_empty=rng.choice([0, 0.2, 0.4, 0.5]),
                             p_error=0.35 if err else 0.0)
@@ -404,8 +416,14 @@ def _run_family(ck, n_grammars, n_random, p_err=0.3, want_hist=True, conflict_bi
                 ls = deep_sentence(rng, g, types) or long_sentence(rng, g, types)
                 longs = [ls] if ls else []
                 after = [x for x in sentences(rng, g, types, 4) if 0 < len(x) <= 40] if longs else []
-                for k3 in range(3):
-                    hist = [rng.choice(inputs) for _ in range(rng.randint(2, 5))]
+                longer = [x for x in inputs if len(x) >= 3] or inputs
+                for k3 in range(3 + (2 if g["err"] else 0)):
+                    if g["err"] and k3 >= 2:
+                        # recovering parsers: several erroneous inputs of some length on ONE object (what is remembered
+                        # from one recovery must not leak into the next)
+                        hist = [rng.choice(longer) for _ in range(rng.randint(4, 8))]
+                    else:
+                        hist = [rng.choice(inputs) for _ in range(rng.randint(2, 5))]
                     fails = [rng.choice([0, 0, 1, 2]) for _ in hist]
                     if longs and k3 == 0:
                         # the deep parse is followed by sentences whose actions read their attributes
